@@ -23,9 +23,11 @@ class DRR(MultiQueueScheduler):
         self.deficit: Dict[FlowId, float] = dict()
         self.quantum: Dict[FlowId, float] = dict()
         min_weight = min(weights.values())
+        # packets waiting or in transmission per *class* (queue_count is per flow)
+        self.class_count: Dict[FlowId, int] = dict()
         for class_id, weight in weights.items():
             self.deficit[class_id] = 0.0
-            self.queue_count[class_id] = 0
+            self.class_count[class_id] = 0
             self.quantum[class_id] = self.MIN_QUANTUM * weight / min_weight
         self.head_of_line = dict()
         self.active_set = set()
@@ -35,14 +37,14 @@ class DRR(MultiQueueScheduler):
     def run(self, env: Environment) -> ProcessGenerator:
         while True:
             while self.total_packets > 0:
-                counts = self.queue_count.items()
+                counts = self.class_count.items()
                 for class_id, count in counts:
                     if count > 0:
                         self.deficit[class_id] += self.quantum[class_id]
                         self.dprint(
-                            f"Flow queue length: {self.queue_count[class_id]}, "
+                            f"Flow queue length: {self.class_count[class_id]}, "
                             f"deficit counters: {self.deficit}")
-                    while self.deficit[class_id] > 0 and self.queue_count[class_id] > 0:
+                    while self.deficit[class_id] > 0 and self.class_count[class_id] > 0:
                         if class_id in self.head_of_line:
                             packet = self.head_of_line[class_id]
                             del self.head_of_line[class_id]
@@ -57,8 +59,9 @@ class DRR(MultiQueueScheduler):
 
                         if packet.size <= self.deficit[class_id]:
                             yield env.process(self.send_packet(packet))
+                            self.class_count[class_id] -= 1
                             self.deficit[class_id] -= packet.size
-                            if self.queue_count[class_id] == 0:
+                            if self.class_count[class_id] == 0:
                                 self.deficit[class_id] = 0.0
                             self.dprint(f"Deficit reduced to {self.deficit[class_id]} for {class_id}")
                         else:
@@ -67,3 +70,12 @@ class DRR(MultiQueueScheduler):
                             break
             if self.total_packets == 0:
                 yield self.packets_available.get()
+
+    def put(self, packet: Packet):
+        # one sub-queue and one credit per class: several flows may share a class
+        class_id = self.flow2class(packet.flow_id)
+        if self.total_packets == 0:
+            self.packets_available.put(True)
+        self.add_packet_to_queue(packet)
+        self.class_count[class_id] += 1
+        self.stores[class_id].put(packet)
